@@ -1015,6 +1015,253 @@ Section Termination.
   Qed.
 End Termination.
 
+(* ====================================================================== _dot_coo_ndarray: values *)
+Section CooNdDen.
+  Variable V : Type.
+  Variable vzero : V.
+  Variable vadd vmul : V -> V -> V.
+  Variable rows cols : list Z.
+  Variable data : list V.
+  Variable a2 : Z -> Z -> V.
+
+  Let n := Z.of_nat (length data).
+  Definition term (t j : Z) : V := vmul (znth data t vzero) (a2 j (znth cols t 0)).
+
+  (* out[i, j] after the entries d, d+1, ..., d+m-1 have been added, starting from s *)
+  Fixpoint acc_from (m : nat) (d i j : Z) (s : V) : V :=
+    match m with
+    | O => s
+    | S m' => acc_from m' (d + 1) i j (if znth rows d 0 =? i then vadd s (term d j) else s)
+    end.
+
+  Lemma acc_from_app m1 m2 d i j s :
+    acc_from (m1 + m2) d i j s = acc_from m2 (d + Z.of_nat m1) i j (acc_from m1 d i j s).
+  Proof.
+    revert d s; induction m1 as [|m1 IH]; intros d s; simpl.
+    - f_equal. lia.
+    - rewrite IH. f_equal. lia.
+  Qed.
+
+  (* length of the run of entries with row o1 starting at d (at most m) *)
+  Fixpoint run_len (m : nat) (o1 d : Z) : nat :=
+    match m with
+    | O => O
+    | S m' => if (d <? n) && (znth rows d 0 =? o1) then S (run_len m' o1 (d + 1)) else O
+    end.
+
+  Lemma run_len_bound m o1 d : d <= n -> d + Z.of_nat (run_len m o1 d) <= n.
+  Proof.
+    revert d; induction m as [|m IH]; intros d Hd; simpl; [lia|].
+    destruct (Z.ltb_spec d n); simpl; [|lia]. destruct (znth rows d 0 =? o1); simpl; [|lia].
+    specialize (IH (d + 1) ltac:(lia)). lia.
+  Qed.
+
+  Lemma run_len_pos m d : (0 < m)%nat -> d < n -> (0 < run_len m (znth rows d 0%Z) d)%nat.
+  Proof.
+    intros Hm Hd. destruct m; [lia|]. simpl. apply Z.ltb_lt in Hd. rewrite Hd, Z.eqb_refl. simpl. lia.
+  Qed.
+
+  Lemma acc_from_run_other m o1 i j d s : i <> o1 -> acc_from (run_len m o1 d) d i j s = s.
+  Proof.
+    intros Hne. revert d s; induction m as [|m IH]; intros d s; simpl; [reflexivity|].
+    destruct ((d <? n) && (znth rows d 0 =? o1)) eqn:E; simpl; [|reflexivity].
+    apply andb_true_iff in E. destruct E as [_ E]. apply Z.eqb_eq in E.
+    destruct (Z.eqb_spec (znth rows d 0) i); [congruence|]. apply IH.
+  Qed.
+
+  Lemma scan_run_spec m o1 o2 d out :
+    fst (scan_run V vzero vadd vmul m rows cols data a2 o1 o2 d out) = d + Z.of_nat (run_len m o1 d)
+    /\ forall i j, snd (scan_run V vzero vadd vmul m rows cols data a2 o1 o2 d out) i j
+                   = if (i =? o1) && (j =? o2) then acc_from (run_len m o1 d) d o1 o2 (out o1 o2) else out i j.
+  Proof.
+    revert d out; induction m as [|m IH]; intros d out; simpl.
+    - split; [lia|]. intros i j. destruct ((i =? o1) && (j =? o2)) eqn:E; [|reflexivity].
+      apply andb_true_iff in E. destruct E as [E1 E2]. apply Z.eqb_eq in E1, E2. subst. reflexivity.
+    - fold n. destruct ((d <? n) && (znth rows d 0 =? o1)) eqn:E; simpl.
+      + apply andb_true_iff in E. destruct E as [_ E]. rewrite E.
+        destruct (IH (d + 1) (upd2 V out o1 o2 (vadd (out o1 o2) (vmul (znth data d vzero) (a2 o2 (znth cols d 0)))))) as [H1 H2].
+        split; [rewrite H1; lia|]. intros i j. rewrite H2.
+        destruct ((i =? o1) && (j =? o2)) eqn:E2.
+        * unfold upd2. rewrite !Z.eqb_refl. simpl. unfold term. reflexivity.
+        * unfold upd2. rewrite E2. reflexivity.
+      + split; [lia|]. intros i j. destruct ((i =? o1) && (j =? o2)) eqn:E2; [|reflexivity].
+        apply andb_true_iff in E2. destruct E2 as [E1 E2]. apply Z.eqb_eq in E1, E2. subst. reflexivity.
+  Qed.
+
+  (* the for loop over the output columns js (pairwise distinct) *)
+  Lemma cn_for_fold m o1 d (js : list Z) : NoDup js -> forall st,
+    let r := fold_left (fun st o2 => scan_run V vzero vadd vmul m rows cols data a2 o1 o2 d (snd st)) js st in
+    (js <> [] -> fst r = d + Z.of_nat (run_len m o1 d))
+    /\ forall i j, snd r i j = if (i =? o1) && mem_z j js then acc_from (run_len m o1 d) d o1 j (snd st o1 j) else snd st i j.
+  Proof.
+    induction js as [|o2 js IH]; intros Hnd st; simpl.
+    - split; [congruence|]. intros i j. rewrite andb_false_r. reflexivity.
+    - apply NoDup_cons_iff in Hnd. destruct Hnd as [Hni Hnd].
+      destruct (scan_run_spec m o1 o2 d (snd st)) as [H1 H2].
+      specialize (IH Hnd (scan_run V vzero vadd vmul m rows cols data a2 o1 o2 d (snd st))). cbv zeta in IH.
+      destruct IH as [IH1 IH2]. split.
+      + intros _. destruct js as [|o3 js']; [simpl; exact H1|]. apply IH1. discriminate.
+      + intros i j. rewrite IH2. unfold mem_z. simpl.
+        destruct (Z.eqb_spec i o1) as [->|Hne]; simpl.
+        * destruct (Z.eqb_spec j o2) as [->|Hne2]; simpl.
+          -- assert (Em : existsb (Z.eqb o2) js = false).
+             { destruct (existsb (Z.eqb o2) js) eqn:Em; [|reflexivity]. exfalso. apply Hni.
+               apply existsb_exists in Em. destruct Em as [y [Hy Ey]]. apply Z.eqb_eq in Ey. subst. exact Hy. }
+             rewrite Em. rewrite H2, !Z.eqb_refl. reflexivity.
+          -- destruct (existsb (Z.eqb j) js).
+             ++ rewrite H2, Z.eqb_refl. simpl. destruct (Z.eqb_spec j o2); [congruence|reflexivity].
+             ++ rewrite H2, Z.eqb_refl. simpl. destruct (Z.eqb_spec j o2); [congruence|reflexivity].
+        * rewrite H2. destruct (Z.eqb_spec i o1); [congruence|reflexivity].
+  Qed.
+
+  Lemma cn_for_spec out_cols o1 d out :
+    let r := cn_for V vzero vadd vmul rows cols data a2 out_cols o1 d d out in
+    let m := Z.to_nat (n - d) in
+    (zrange out_cols <> [] -> fst r = d + Z.of_nat (run_len m o1 d))
+    /\ forall i j, snd r i j = if (i =? o1) && mem_z j (zrange out_cols) then acc_from (run_len m o1 d) d o1 j (out o1 j) else out i j.
+  Proof. unfold cn_for. apply (cn_for_fold (Z.to_nat (n - d)) o1 d (zrange out_cols) (zrange_NoDup out_cols) (d, out)). Qed.
+
+  (* loop invariant: out[i, j] holds the contribution of the entries [0, d) *)
+  Definition inv (out_cols d : Z) (out : Z -> Z -> V) : Prop :=
+    forall i j, 0 <= j < out_cols -> out i j = acc_from (Z.to_nat d) 0 i j vzero.
+
+  Lemma cn_while_den fuel out_cols : 0 < out_cols -> forall d out,
+    0 <= d <= n -> (Z.to_nat (n - d) <= fuel)%nat -> inv out_cols d out ->
+    exists o, cn_while V vzero vadd vmul fuel rows cols data a2 out_cols d out = KOk o /\ inv out_cols n o.
+  Proof.
+    intros Hc. induction fuel as [|f IH]; intros d out Hd Hf Hinv.
+    - simpl. fold n. destruct (Z.ltb_spec d n); [lia|]. simpl. exists out. split; [reflexivity|].
+      replace n with d by lia. exact Hinv.
+    - simpl. fold n. destruct (Z.ltb_spec d n); simpl.
+      2:{ exists out. split; [reflexivity|]. replace n with d by lia. exact Hinv. }
+      destruct (Z.ltb_spec 0 out_cols); [|lia]. simpl.
+      set (o1 := znth rows d 0).
+      destruct (cn_for_spec out_cols o1 d out) as [F1 F2].
+      destruct (cn_for V vzero vadd vmul rows cols data a2 out_cols o1 d d out) as [d' out'] eqn:E. simpl in F1, F2.
+      set (m := Z.to_nat (n - d)) in *.
+      assert (Hne : zrange out_cols <> []).
+      { intros E0. assert (In 0 (zrange out_cols)) by (apply zrange_In; lia). rewrite E0 in H1. contradiction. }
+      specialize (F1 Hne). set (L := run_len m o1 d) in *.
+      assert (HL : (0 < L)%nat) by (apply run_len_pos; [unfold m; lia|assumption]).
+      assert (HLb : d + Z.of_nat L <= n) by (apply run_len_bound; lia).
+      apply IH; [lia|lia|].
+      intros i j Hj. rewrite F2. rewrite F1.
+      replace (Z.to_nat (d + Z.of_nat L)) with (Z.to_nat d + L)%nat by lia.
+      rewrite acc_from_app. rewrite Z2Nat.id by lia. simpl Z.add. rewrite <- (Hinv i j Hj).
+      assert (Hm : mem_z j (zrange out_cols) = true) by (apply mem_z_In, zrange_In; exact Hj).
+      rewrite Hm, andb_true_r. destruct (Z.eqb_spec i o1) as [->|Hne1]; [reflexivity|].
+      symmetry. apply acc_from_run_other. exact Hne1.
+  Qed.
+
+  Theorem dot_coo_ndarray_acc out_cols fuel : (length data <= fuel)%nat ->
+    exists o, dot_coo_ndarray V vzero vadd vmul fuel rows cols data a2 out_cols = KOk o
+      /\ forall i j, 0 <= j < out_cols -> o i j = acc_from (length data) 0 i j vzero.
+  Proof.
+    intros Hf. unfold dot_coo_ndarray.
+    destruct (Z.ltb_spec 0 out_cols) as [Hc|Hc].
+    - destruct (cn_while_den fuel out_cols Hc 0 (fun _ _ => vzero)) as [o [E Ho]]; [unfold n; lia|unfold n; lia| |].
+      + intros i j _. reflexivity.
+      + exists o. split; [exact E|]. intros i j Hj. rewrite (Ho i j Hj). unfold n. rewrite Nat2Z.id. reflexivity.
+    - destruct (dot_coo_ndarray_terminates_proof V vzero vadd vmul rows cols data a2 out_cols fuel Hf) as [o E].
+      exists o. split; [exact E|]. intros i j Hj. lia.
+  Qed.
+End CooNdDen.
+
+Section CooNdDen2.
+  Variable V : Type.
+  Variable vzero : V.
+  Variable vadd vmul : V -> V -> V.
+  Hypothesis SR : comm_semiring vzero vadd vmul.
+  Variable a2 : Z -> Z -> V.
+
+  (* the same accumulation over the list of cells (row, column, value) *)
+  Definition acc_list (cs : list (Z * Z * V)) (i j : Z) (s : V) : V :=
+    fold_left (fun s (t : Z * Z * V) => if fst (fst t) =? i then vadd s (vmul (snd t) (a2 j (snd (fst t)))) else s) cs s.
+
+  Lemma acc_from_cells (r c : list Z) (dt : list V) i j :
+    length r = length dt -> length c = length dt ->
+    forall (pr pc : list Z) (pd : list V) s,
+      length pr = length pd -> length pc = length pd ->
+      acc_from V vzero vadd vmul (pr ++ r) (pc ++ c) (pd ++ dt) a2 (length dt) (Z.of_nat (length pd)) i j s
+      = acc_list (combine (combine r c) dt) i j s.
+  Proof.
+    revert r c; induction dt as [|v dt IH]; intros r c Hr Hc pr pc pd s Hpr Hpc.
+    - destruct r, c; simpl in *; try discriminate; reflexivity.
+    - destruct r as [|x r]; [discriminate|]. destruct c as [|y c]; [discriminate|]. simpl in Hr, Hc.
+      cbn [acc_from length combine acc_list fold_left fst snd].
+      assert (E1 : znth (pr ++ x :: r) (Z.of_nat (length pd)) 0 = x).
+      { unfold znth. rewrite Nat2Z.id, <- Hpr, app_nth2, Nat.sub_diag by lia. reflexivity. }
+      assert (E2 : znth (pc ++ y :: c) (Z.of_nat (length pd)) 0 = y).
+      { unfold znth. rewrite Nat2Z.id, <- Hpc, app_nth2, Nat.sub_diag by lia. reflexivity. }
+      assert (E3 : znth (pd ++ v :: dt) (Z.of_nat (length pd)) vzero = v).
+      { unfold znth. rewrite Nat2Z.id, app_nth2, Nat.sub_diag by lia. reflexivity. }
+      unfold term. rewrite E1, E2, E3.
+      replace (pr ++ x :: r) with ((pr ++ [x]) ++ r) by (rewrite <- app_assoc; reflexivity).
+      replace (pc ++ y :: c) with ((pc ++ [y]) ++ c) by (rewrite <- app_assoc; reflexivity).
+      replace (pd ++ v :: dt) with ((pd ++ [v]) ++ dt) by (rewrite <- app_assoc; reflexivity).
+      replace (Z.of_nat (length pd) + 1) with (Z.of_nat (length (pd ++ [v]))) by (rewrite app_length; simpl; lia).
+      rewrite (IH r c ltac:(lia) ltac:(lia) (pr ++ [x]) (pc ++ [y]) (pd ++ [v])) by (rewrite !app_length; simpl; lia).
+      reflexivity.
+  Qed.
+
+  Definition row_of (i : Z) (cs : list (Z * Z * V)) : list (Z * V) :=
+    map (fun t => (snd (fst t), snd t)) (filter (fun t => fst (fst t) =? i) cs).
+
+  Lemma acc_list_vsum cs i j s :
+    acc_list cs i j s = vadd s (vsum V vzero vadd (map (fun cv => vmul (snd cv) (a2 j (fst cv))) (row_of i cs))).
+  Proof.
+    unfold acc_list, row_of. revert s; induction cs as [|[[r c] v] cs IH]; intros s; simpl.
+    - symmetry. apply (add_0_r V vzero vadd vmul SR).
+    - destruct (Z.eqb_spec r i); simpl; rewrite IH; [|reflexivity].
+      rewrite (sr_add_assoc _ _ _ SR). reflexivity.
+  Qed.
+
+  Lemma cell_lookup_row_of cs i c : cell_lookup V cs i c = row_lookup (row_of i cs) c.
+  Proof.
+    unfold row_of. induction cs as [|[[r c'] v] cs IH]; simpl; [reflexivity|].
+    rewrite IH. destruct (Z.eqb_spec r i); simpl; [reflexivity|].
+    destruct (row_lookup (map (fun t => (snd (fst t), snd t)) (filter (fun t => fst (fst t) =? i) cs)) c); reflexivity.
+  Qed.
+
+  Lemma row_of_keys_NoDup cs i : NoDup (map fst cs) -> NoDup (map fst (row_of i cs)).
+  Proof.
+    unfold row_of. induction cs as [|[[r c] v] cs IH]; simpl; intros Hnd; [constructor|].
+    apply NoDup_cons_iff in Hnd. destruct Hnd as [Hni Hnd]. specialize (IH Hnd).
+    destruct (Z.eqb_spec r i) as [->|Hne]; simpl; [|exact IH].
+    constructor; [|exact IH]. intros Hin. apply Hni.
+    rewrite map_map in Hin. simpl in Hin. apply in_map_iff in Hin. destruct Hin as [[[r' c''] v'] [E Hin]].
+    simpl in E. subst c''. apply filter_In in Hin. destruct Hin as [Hin Er]. simpl in Er. apply Z.eqb_eq in Er. subst r'.
+    apply in_map_iff. exists (i, c, v'). split; [reflexivity|exact Hin].
+  Qed.
+
+  (* _dot_coo_ndarray computes s1 @ x2.T: out[i, j] = sum_c s1[i, c] * array2[j, c] *)
+  Theorem dot_coo_ndarray_den_proof (rows cols : list Z) (data : list V) (n_in out_cols : Z) (fuel : nat) :
+    length rows = length data -> length cols = length data ->
+    NoDup (combine rows cols) -> Forall (fun c => 0 <= c < n_in) cols ->
+    (length data <= fuel)%nat ->
+    exists o, dot_coo_ndarray V vzero vadd vmul fuel rows cols data a2 out_cols = KOk o
+      /\ forall i j, 0 <= j < out_cols ->
+           o i j = np_matmul2 V vzero vadd vmul n_in (coo_cells_den V vzero rows cols data) (fun c j => a2 j c) i j.
+  Proof.
+    intros Hr Hc Hnd Hrange Hf.
+    destruct (dot_coo_ndarray_acc V vzero vadd vmul rows cols data a2 out_cols fuel Hf) as [o [E Ho]].
+    exists o. split; [exact E|]. intros i j Hj. rewrite (Ho i j Hj).
+    pose proof (acc_from_cells rows cols data i j Hr Hc [] [] [] vzero eq_refl eq_refl) as Ha. simpl in Ha.
+    rewrite Ha, acc_list_vsum, (sr_add_0_l _ _ _ SR).
+    set (cs := combine (combine rows cols) data).
+    assert (Hfst : map fst cs = combine rows cols) by (unfold cs; apply map_fst_combine; rewrite combine_length; lia).
+    rewrite (sparse_row_sum V vzero vadd vmul SR (a2 j) n_in (row_of i cs)).
+    - unfold np_matmul2, sum_over. f_equal. apply map_ext. intros c. f_equal.
+      unfold row_get, coo_cells_den. fold cs. rewrite cell_lookup_row_of. reflexivity.
+    - apply row_of_keys_NoDup. rewrite Hfst. exact Hnd.
+    - apply Forall_forall. intros [c v] Hin. simpl. unfold row_of in Hin. apply in_map_iff in Hin.
+      destruct Hin as [[[r' c'] v'] [E' Hin]]. simpl in E'. inversion E'; subst c' v'.
+      apply filter_In in Hin. destruct Hin as [Hin _].
+      assert (In (r', c) (combine rows cols)) by (rewrite <- Hfst; apply in_map_iff; exists (r', c, v); auto).
+      apply in_combine_r in H. rewrite Forall_forall in Hrange. apply Hrange. exact H.
+  Qed.
+End CooNdDen2.
+
 (* ====================================================================== _dot dispatch *)
 Theorem dot_dispatch_total_proof (a_argmin : bool) (ka kb : okind) (rt : rtype) :
   exists ker o, dot_dispatch a_argmin ka kb rt = Some (ker, o)
@@ -1549,31 +1796,7 @@ Proof.
   unfold np_matmul2, sum_over. f_equal. apply map_ext. intros j. apply (sr_mul_comm _ _ _ SR).
 Qed.
 
-(* ====================================================================== _dot_csc_ndarray_sparse: two defects *)
-(* Full statements (what count_nnz_exact and spgemm_rows_sorted say of _dot_csr_csr), FALSE of
-   _dot_csc_ndarray_sparse / _csc_ndarray_count_nnz as they stand:
-     forall m n p a b, csr_wfb n m a = true ->
-       exists r, dot_csc_ndarray_sparse m n p a b = KOk r /\ csr_wfb p m r = true.
-   (a) the pre-count counts every TOUCHED row index of a column, the kernel writes only the cells
-       whose sum is non-zero: a cancellation leaves an unwritten np.empty tail in data/indices (and an
-       indptr that does not describe the written cells);
-   (b) the cells of a column are written in linked-list order, not in increasing row order. *)
-Definition exAc : csr Z := mkCSR [-3; 1; -2; 3; 1; -2] [0; 1; 0; 1; 0; 1] [0; 2; 4; 6].   (* [[-3,-2,1],[1,3,-2]] as CSC *)
-Definition exBd (j i : Z) : Z := nth (Z.to_nat (j * 3 + i)) [0; 1; 2; 0; -3; 2; 0; -3; -1] 0.
-
-Theorem csc_ndarray_count_exact_refuted_proof :
-  exists (m n p : Z) (a : csr Z) (b : Z -> Z -> Z),
-    csr_wfb n m a = true /\ dot_csc_ndarray_sparse Z 0 Z.add Z.mul Z.eqb m n p a b = KTail.
-Proof. exists 2, 3, 3, exAc, exBd. vm_compute. split; reflexivity. Qed.
-
-Definition exA2c : csr Z := mkCSR [-3; 2] [0; 2] [0; 0; 2; 2].                 (* [[0,-3,0],[0,0,0],[0,2,0]] as CSC *)
-Definition exB2d (j i : Z) : Z := nth (Z.to_nat (j * 2 + i)) [2; 2; 2; 1; 3; 3] 0.
-
-Theorem csc_ndarray_rows_sorted_refuted_proof :
-  exists (m n p : Z) (a : csr Z) (b : Z -> Z -> Z) (r : csr Z),
-    csr_wfb n m a = true /\ dot_csc_ndarray_sparse Z 0 Z.add Z.mul Z.eqb m n p a b = KOk r /\ csr_wfb p m r = false.
-Proof. exists 3, 3, 2, exA2c, exB2d. eexists. vm_compute. repeat split; reflexivity. Qed.
-
+(*CSCND*)
 (* ====================================================================== non-vacuity *)
 (* the hypotheses of the theorems above hold of concrete non-trivial operands over Z *)
 Definition exA : csr Z := mkCSR [1; 2; 3] [0; 1; 2] [0; 2; 3; 3].           (* 3 x 3, one empty row *)
@@ -1647,3 +1870,10 @@ Example spcoo_example :
   dot_coo_coo Z 0 Z.add Z.mul 3 4 exA exB = KOk ([0; 0; 0; 1; 1], [0; 2; 1; 3; 2], [2; 1; 3; 15; 6]) /\
   coo_cells_den Z 0 [0; 0; 0; 1; 1] [0; 2; 1; 3; 2] [2; 1; 3; 15; 6] 1 3 = 15.
 Proof. vm_compute. split; reflexivity. Qed.
+
+Example dot_coo_ndarray_den_example :
+  NoDup (combine [0; 0; 1] [0; 1; 2]) /\ Forall (fun c => 0 <= c < 3) [0; 1; 2] /\
+  np_matmul2 Z 0 Z.add Z.mul 3 (coo_cells_den Z 0 [0; 0; 1] [0; 1; 2] [1; 2; 3]) (fun c j => c + j) 1 1 = 9.
+Proof.
+  split; [repeat constructor; simpl; intuition congruence|]. split; [repeat constructor; lia|vm_compute; reflexivity].
+Qed.
